@@ -383,16 +383,51 @@ Ltac find_mid := idtac; match goal with
       first [ exact (contains_here m (skipn (List.length m) (c :: r))) | apply contains_cons; find_mid ]
   end.
 
+Lemma join_contains : forall (sep : string) (l : list string) (x : string),
+  In x l -> contains (list_ascii_of_string x) (list_ascii_of_string (join sep l)).
+Proof.
+  induction l as [|y l IH]; intros x Hin; [destruct Hin|].
+  destruct l as [|z l'].
+  - destruct Hin as [<-|[]]. apply contains_refl.
+  - change (join sep (y :: z :: l')) with (y ++ sep ++ join sep (z :: l'))%string.
+    rewrite !list_ascii_app. destruct Hin as [<-|Hin].
+    + apply contains_l, contains_refl.
+    + apply contains_r, contains_r, IH, Hin.
+Qed.
+
+(* key separators that give JSON text: white space, a colon, white space (json.dumps accepts any
+   string; anything else does not print a JSON document at all) *)
+Definition all_space (w : string) : Prop :=
+  forall c, In c (list_ascii_of_string w) -> cmem cs_space c = true.
+Definition key_sep_ok (ks : string) : Prop :=
+  exists w1 w2, ks = (w1 ++ ":" ++ w2)%string /\ all_space w1 /\ all_space w2.
+
+Ltac m_step := match goal with
+  | |- M (Seq (Star (Chr _)) _) (_ ++ _) => constructor; [apply M_star_all; assumption|]
+  | |- M (Seq (Chr _) _) (?c :: ?r) => change (c :: r) with ([c] ++ r); constructor; [constructor; reflexivity|]
+  | |- M (Chr _) [_] => constructor; reflexivity
+  end.
+
 Section Sniff.
 Variable NM : Num.
 Variable pnum : T NM -> string.
 Variable pstr : bool -> string -> string.
 
-(* the text the sniff looks for, as json.dumps prints it with the default key separator *)
-Definition version_member : string := ("""version"": """ ++ json_schema_id ++ """")%string.
+(* the member the sniff looks for, as json.dumps prints it with key separator [ks] *)
+Definition version_member (ks : string) : string :=
+  ("""version""" ++ ks ++ """" ++ json_schema_id ++ """")%string.
 
-Lemma sniff_body_matches : M (p_body sniff_pat) (list_ascii_of_string version_member).
-Proof. apply rmatch_iff. vm_compute. reflexivity. Qed.
+(* the regular expression regenerated from persistence.loads_json matches that member for every
+   JSON key separator *)
+Lemma sniff_body_matches : forall ks, key_sep_ok ks ->
+  M (p_body sniff_pat) (list_ascii_of_string (version_member ks)).
+Proof.
+  intros ks (w1 & w2 & -> & H1 & H2). unfold all_space in *.
+  unfold version_member. rewrite !list_ascii_app.
+  cbn [list_ascii_of_string json_schema_id]. rewrite <- !app_assoc.
+  cbn [Datatypes.app sniff_pat p_body].
+  repeat m_step.
+Qed.
 
 Definition quotes_plainly (ea : bool) (s : string) : Prop := pstr ea s = ("""" ++ s ++ """")%string.
 
@@ -409,31 +444,37 @@ Lemma sort_root : forall (f : json NM -> json NM) v1 v2 v3 v4 v5 v6 v7,
      ("tagged_real", f v4); ("untagged_real", f v6); ("version", f v2)].
 Proof. reflexivity. Qed.
 
-Theorem sniff_default_sep : forall (o : jopts) (a : farchive NM),
-  o_key_sep o = ": " ->
+(* printing an object with at least one member: the text of every member occurs in it *)
+Lemma pj_obj_contains : forall o level (kv0 : string * json NM) (m : list (string * json NM)) (kv : string * json NM),
+  In kv (kv0 :: m) ->
+  contains (list_ascii_of_string (pstr (o_ensure_ascii o) (fst kv) ++ o_key_sep o ++ pj NM pnum pstr o (S level) (snd kv))%string)
+           (list_ascii_of_string (pj NM pnum pstr o level (JObj (kv0 :: m)))).
+Proof.
+  intros o level kv0 m kv Hin. cbn [pj].
+  match goal with |- contains _ (list_ascii_of_string (?a ++ ?b ++ ?j ++ ?c)%string) =>
+    rewrite (list_ascii_app a), (list_ascii_app b), (list_ascii_app j) end.
+  apply contains_r, contains_r, contains_l.
+  apply (join_contains _ _ _ (in_map (fun kv => (pstr (o_ensure_ascii o) (fst kv) ++ o_key_sep o
+           ++ pj NM pnum pstr o (S level) (snd kv))%string) _ _ Hin)).
+Qed.
+
+Theorem sniff_all_options : forall (o : jopts) (a : farchive NM),
+  key_sep_ok (o_key_sep o) ->
   quotes_plainly (o_ensure_ascii o) "version" -> quotes_plainly (o_ensure_ascii o) json_schema_id ->
   pmatch sniff_pat (print_json NM pnum pstr o (json_encode NM json_schema_id a)) = true.
 Proof.
   intros o a Hk Hv Hu.
   change sniff_pat with (mkPat false false (p_body sniff_pat)).
-  apply (search_contains _ _ _ sniff_body_matches).
-  unfold print_json, json_encode.
-  generalize (JObj (map (fun l : leaf NM => (repr_e (l_uid NM l), jleaf NM l)) (a_leaves NM a))).
-  generalize (JObj (map (fun p : string * treal NM => (fst p, jtreal NM (snd p))) (a_treal NM a))).
-  generalize (JObj (map (fun p : string * tcomplex => (fst p, jtcomplex NM (snd p))) (a_tcomplex NM a))).
-  generalize (JObj (map (fun p : string * treal NM => (fst p, jtreal NM (snd p))) (a_ureal NM a))).
-  generalize (JObj (map (fun p : uid * interm NM => (repr_i (fst p), jinterm NM (snd p))) (a_interm NM a))).
-  intros j7 j6 j5 j4 j3.
+  apply (search_contains _ _ _ (sniff_body_matches _ Hk)).
+  assert (E : version_member (o_key_sep o) =
+              (pstr (o_ensure_ascii o) (fst ("version", @JStr NM json_schema_id)) ++ o_key_sep o
+               ++ pj NM pnum pstr o 1 (snd ("version", @JStr NM json_schema_id)))%string).
+  { cbn [fst snd pj]. rewrite Hv, Hu. unfold version_member.
+    reflexivity. }
+  rewrite E. unfold print_json, json_encode.
   destruct (o_sort_keys o).
-  - rewrite jsort_obj, sort_root.
-    generalize (jsort NM j3) (jsort NM j4) (jsort NM j5) (jsort NM j6) (jsort NM j7). intros s3 s4 s5 s6 s7.
-    cbn [jsort pj map join fst snd]. rewrite Hk, Hv, Hu.
-    rewrite !list_ascii_app. unfold version_member. rewrite !list_ascii_app.
-    cbn [list_ascii_of_string json_schema_id Datatypes.app].
-    find_mid.
-  - cbn [pj map join fst snd]. rewrite Hk, Hv, Hu.
-    rewrite !list_ascii_app. unfold version_member. rewrite !list_ascii_app.
-    cbn [list_ascii_of_string json_schema_id Datatypes.app].
-    find_mid.
+  - rewrite jsort_obj, sort_root. apply pj_obj_contains.
+    cbn [jsort]. simpl. tauto.
+  - apply pj_obj_contains. simpl. tauto.
 Qed.
 End Sniff.
